@@ -14,7 +14,7 @@ from typing import (
     TypeVar,
 )
 
-from pydantic import BaseModel, ConfigDict, model_serializer, model_validator
+from pydantic import BaseModel, ConfigDict, model_serializer
 from workflows.events import (
     Event,
     SerializableEvent,
@@ -200,18 +200,10 @@ class AddWaiter(BaseModel, Generic[EventType]):
     def _serialize(self, handler: Any) -> dict[str, Any]:
         data = handler(self)
         # Always serialize requirements as {} and record whether they existed
-        data["has_requirements"] = bool(self.requirements)
+        # (a waiter that was itself loaded from this form only has the flag left)
+        data["has_requirements"] = bool(self.requirements) or self.has_requirements
         data["requirements"] = {}
         return data
-
-    @model_validator(mode="wrap")  # type: ignore[ty:invalid-argument-type]
-    @classmethod
-    def _validate(cls, data: Any, handler: Any) -> AddWaiter:
-        if isinstance(data, dict):
-            # Strip has_requirements before validation (it's computed)
-            data = dict(data)
-            data.pop("has_requirements", None)
-        return handler(data)
 
 
 # A step function result "command" communicates back to the workflow how the step function was resolved
